@@ -857,6 +857,16 @@ func (a *AE) call(fr *frame, x *ssa.Call, e aenv) (dead bool) {
 		delete(e, x)
 		return false
 	}
+	// handing a nil *T to the parser as last evaluated value is as good as dereferencing it:
+	// the readers of that value unwrap and copy it unconditionally
+	if isPublishSetter(callee) && len(x.Call.Args) == 2 {
+		if mi, ok := x.Call.Args[1].(*ssa.MakeInterface); ok {
+			if v := a.get(e, mi.X); v.k == kNil {
+				fr.deref(Deref{Org: v.org, Pos: instrPos(x), Ins: x, What: "published as the last evaluated value (its readers copy it without a nil test): nil " + describeValue(mi.X)})
+				return true
+			}
+		}
+	}
 	if a.env.EOF || a.env.NL {
 		if a.isRuneReader(callee) {
 			if a.env.NL {
@@ -971,4 +981,17 @@ func missValue(callee *ssa.Function, pos map[int]bool, org int) Val {
 		}
 	}
 	return vTuple(t...)
+}
+
+// isPublishSetter: method of *parser.Parser taking one value of the empty interface type
+// and returning nothing (the setter of the last evaluated value).
+func isPublishSetter(f *ssa.Function) bool {
+	if f == nil || f.Signature.Recv() == nil || !isPtrToNamed(f.Signature.Recv().Type(), modulePath+"/parser", "Parser") {
+		return false
+	}
+	if f.Signature.Params().Len() != 1 || f.Signature.Results().Len() != 0 {
+		return false
+	}
+	it, ok := f.Signature.Params().At(0).Type().Underlying().(*types.Interface)
+	return ok && it.NumMethods() == 0
 }
